@@ -62,6 +62,13 @@ XGetData(host, br, m, h) ==
   IF ~KnownType(dt) THEN << >>
   ELSE IF IsVar(dt) THEN Units(host, br, SubBytes(m, at + 2, XRd16(host, br, m, at)), ElemSize(dt))
   ELSE Units(host, br, SubBytes(m, at, ElemSize(dt)), ElemSize(dt))
+XGetPath(host, br, m, h) ==
+  CASE XAddrMode(host, br, m, h) = 1 -> UnUnit(host, br, SubBytes(m, h + VH, 4))
+    [] XAddrMode(host, br, m, h) = 0 -> SubBytes(m, h + VH + 2, XRd16(host, br, m, h + VH))
+    [] OTHER -> << >>
+\* string arrays: every 16-bit length prefix is a converted unit, the octets are copied
+RECURSIVE XPack(_, _, _)
+XPack(host, br, list) == IF list = << >> THEN << >> ELSE Unit(host, br, BE16(Len(Head(list)))) \o Head(list) \o XPack(host, br, Tail(list))
 XPad(host, br, m, h, vlen) ==
   LET m1 == Overlay(m, h + vlen, Fill(VPad(vlen), 0)) IN
   XSet(host, br, XSet(host, br, m1, h, "Vss", "acf_msg_length", V64((vlen + VPad(vlen)) \div 4)), h, "Vss", "pad", V64(VPad(vlen)))
